@@ -1,7 +1,126 @@
 import GoawkModel.Basic
-/-! Line-protocol handler for property C17: one request line (already split into words, without the leading `c17`) → one answer line. -/
-namespace GoawkModel.Drv.C17
+import GoawkModel.C17
+/-! Line-protocol handler for property C17.
 
-def handle (_args : List String) : String := "unimplemented"
+Types: `Int8`, `n.Int8` (named), `s.<ty>` / `ns.<ty>` (slice / named slice), `error`.
+* `call <nil01> <variadic01> P <ty>* R <ty>* A <num16hex:t|f:strhex>* B <nval> <nil|e<hex>>`
+    → `<ok null f|ok n<16hex> <t|f>|ok s<hex> <t|f>|err <hex>|panic> (norecv | recv <nval>*)`
+* `check <namehex> <fval>` → `ok | err <class> | panic`      fval = `func <nil01> <variadic01> P <ty>* R <ty>*` | `other <Kind>` | `nil`
+* `resolve <nargs> <fval>` → `ok | notfunc | toomany`
+nval = `b0|b1|i<dec>|f<8hex>|d<16hex>|s<hex>|nil` -/
+namespace GoawkModel.Drv.C17
+open GoawkModel GoawkModel.C17
+
+def hexNat (s : String) : Option Nat :=
+  s.toList.foldlM (fun acc c => (hexVal c).map (acc * 16 + ·)) 0
+
+def natHex (width n : Nat) : String :=
+  String.ofList ((List.range width).reverse.map fun i => hexDigit ((n >>> (4 * i)) % 16))
+
+def parseTyToks : List String → Option Ty
+  | ["error"] => some .error
+  | [k] => (RKind.ofName k).map (Ty.prim · false)
+  | ["n", k] => (RKind.ofName k).map (Ty.prim · true)
+  | "s" :: rest => (parseTyToks rest).map (Ty.slice · false)
+  | "ns" :: rest => (parseTyToks rest).map (Ty.slice · true)
+  | _ => none
+
+def parseTy (s : String) : Option Ty := parseTyToks (s.splitOn ".")
+
+def parseNVal (s : String) : Option NVal :=
+  if s == "nil" then some .nilSlice else
+  match s.toList with
+  | 'b' :: ['0'] => some (.b false)
+  | 'b' :: ['1'] => some (.b true)
+  | 'i' :: r => (String.ofList r).toInt?.map .i
+  | 'f' :: r => (hexNat (String.ofList r)).map .f32
+  | 'd' :: r => (hexNat (String.ofList r)).map .f64
+  | 's' :: r => (fromHex (String.ofList r)).map .s
+  | _ => none
+
+def showNVal : NVal → String
+  | .b x => if x then "b1" else "b0"
+  | .i x => "i" ++ toString x
+  | .f32 x => "f" ++ natHex 8 (if (x >>> 23) % 256 == 255 && x % 2 ^ 23 != 0 then 0x7fc00001 else x)
+  | .f64 x => "d" ++ natHex 16 (canon64 x)
+  | .s x => "s" ++ toHex x
+  | .nilSlice => "nil"
+
+def parseAVal (s : String) : Option AVal :=
+  match s.splitOn ":" with
+  | [n, t, x] =>
+    match hexNat n, fromHex x with
+    | some n, some x => some ⟨n, t == "t", x⟩
+    | _, _ => none
+  | _ => none
+
+def tf (b : Bool) : String := if b then "t" else "f"
+
+/-- split `P … R … <rest>` -/
+def parseSig (variadic : Bool) (ws : List String) : Option (Sig × List String) :=
+  match ws with
+  | "P" :: rest =>
+    let ps := rest.takeWhile (· != "R")
+    match rest.dropWhile (· != "R") with
+    | "R" :: rest2 =>
+      let rs := rest2.takeWhile fun w => w != "A"
+      let tail := rest2.dropWhile fun w => w != "A"
+      match ps.mapM parseTy, rs.mapM parseTy with
+      | some ps, some rs => some (⟨ps, variadic, rs⟩, tail)
+      | _, _ => none
+    | _ => none
+  | _ => none
+
+def parseFVal (ws : List String) : Option FVal :=
+  match ws with
+  | ["nil"] => some .untypedNil
+  | ["other", k] => (RKind.ofName k).map .other
+  | "func" :: n :: v :: rest => (parseSig (v == "1") rest).map fun p => .func p.1 (n == "1")
+  | _ => none
+
+def showCheckErr : CheckErr → String
+  | .keyword => "keyword" | .notFunc => "notfunc" | .param i => s!"param{i}" | .ret => "ret" | .ret1 => "ret1"
+  | .ret2NotError => "ret2" | .tooManyResults => "toomany"
+
+def handle (args : List String) : String :=
+  match args with
+  | "call" :: n :: v :: rest =>
+    match parseSig (v == "1") rest with
+    | some (sig, "A" :: tail) =>
+      let as := tail.takeWhile (· != "B")
+      match tail.dropWhile (· != "B"), as.mapM parseAVal with
+      | ["B", bv, be], some as =>
+        match parseNVal bv, (if be == "nil" then some none else (fromHex (be.drop 1).toString).map some) with
+        | some bv, some be =>
+          let (out, recv) := callNative sig (n == "1") as (fun _ => (bv, be))
+          let o := match out with
+            | .ok .null => "ok null f"
+            | .ok (.num b) => s!"ok n{natHex 16 (canon64 b)} {tf (RVal.num b).truth}"
+            | .ok (.str x) => s!"ok s{toHex x} {tf (RVal.str x).truth}"
+            | .err m => "err " ++ toHex m
+            | .panic _ => "panic"
+          let r := match recv with
+            | none => "norecv"
+            | some vs => String.intercalate " " ("recv" :: vs.map fun p => showNVal p.2)
+          o ++ " " ++ r
+        | _, _ => "bad-body"
+      | _, _ => "bad-args"
+    | _ => "bad-sig"
+  | "check" :: name :: rest =>
+    match fromHex name, parseFVal rest with
+    | some name, some f =>
+      match checkNativeFunc (isKeyword name) f with
+      | (.ok _, _) => "ok"
+      | (.panic _, _) => "panic"
+      | (.err _, some e) => "err " ++ showCheckErr e
+      | (.err _, none) => "err ?"
+    | _, _ => "bad-request"
+  | "resolve" :: n :: rest =>
+    match n.toNat?, parseFVal rest with
+    | some n, some f =>
+      match resolveCall f n with
+      | .ok => "ok" | .notFunc => "notfunc" | .tooManyArgs => "toomany"
+    | _, _ => "bad-request"
+  | _ => "bad-request"
 
 end GoawkModel.Drv.C17
